@@ -489,6 +489,7 @@ func (e *Exec) unop(f *frame, x *ssa.UnOp, h *Heap, g string) (*Heap, string) {
 			out = sh
 		}
 		out.Typ = x.Type()
+		e.notPrivate(out)
 		if _, isSl := x.Type().Underlying().(*types.Slice); isSl && e.pure == 0 && out.A == nil {
 			e.wf(out)
 		} else if _, isNamed := x.Type().(*types.Named); isNamed && e.pure == 0 && e.specDepth == 0 {
@@ -760,6 +761,12 @@ func (e *Exec) convert(f *frame, x *ssa.Convert, h *Heap) Val {
 			ln := "((_ int2bv 64) (str.len " + v.T + "))"
 			if e.s.mathInt {
 				ln = "(str.len " + v.T + ")"
+			}
+			// converting back yields the same string
+			b2s := "bytes2str"
+			e.s.declFun(b2s, []string{e.s.arrSort(e.s.sortOf(sl.Elem())), e.s.ixSort(), e.s.ixSort()}, e.s.strSort())
+			if e.pure == 0 {
+				e.s.assert(fmt.Sprintf("(= (%s (%s %s) %s %s) %s)", b2s, fn, v.T, e.s.ixLit(0), ln, v.T))
 			}
 			return Val{T: fmt.Sprintf("(mk_slice %s %s %s %s)", ref, e.s.ixLit(0), ln, ln), Allocs: []string{ref}}
 		}
